@@ -2,8 +2,9 @@
 # run every seeded change under /verif/seeded through the check of the property it breaks (quick tier)
 cd /verif || exit 2
 out=${1:-/verif/seeded/RESULTS.txt}
-: > "$out"
-for d in seeded/C*-m*; do
+pat=${2:-C}
+[ -n "${APPEND:-}" ] || : > "$out"
+for d in seeded/${pat}*-m*; do
   id=$(basename $d); prop=${id%%-*}
   title=$(python3 -c "import json;print(json.load(open('$d/meta.json'))['title'])")
   res=$(tools/mutant.sh $d/patch.diff quick $prop 2>&1)
